@@ -335,5 +335,6 @@ pub fn c08(tier: Tier, seed: u64) -> Prop {
         ],
         units,
         extra: no_extra(),
+        profiles: vec!["release"],
     }
 }
